@@ -106,6 +106,7 @@ template <typename A, typename B> bool operator!=(const polymorphic_allocator<A>
 """
 
 STDS = ("c++14", "c++17", "c++20")
+NOLIMIT = {"gcc": "-fmax-errors=0", "clang": "-ferror-limit=0"}  # every assertion of every header must get its turn
 
 
 # --------------------------------------------------------------------------------------------------------------------------
@@ -266,10 +267,10 @@ class Builder:
 
     def compile_cmd(self, lang, a, mix, tu, compiler):
         if lang == "c":
-            return [{"gcc": "gcc", "clang": "clang"}[compiler], "-std=c11", "-fsyntax-only", "-DNUNAVUT_ASSERT(x)=assert(x)", "-I", str(mix), str(tu)]
+            return [{"gcc": "gcc", "clang": "clang"}[compiler], "-std=c11", "-fsyntax-only", NOLIMIT[compiler], "-DNUNAVUT_ASSERT(x)=assert(x)", "-I", str(mix), str(tu)]
         std = pyvec(self.m.expand(lang, a)).get("std")
         std = std if std in STDS else "c++17"
-        return [{"gcc": "g++", "clang": "clang++"}[compiler], "-std=" + std, "-fsyntax-only", "-DNUNAVUT_ASSERT(x)=assert(x)", "-I", str(mix),
+        return [{"gcc": "g++", "clang": "clang++"}[compiler], "-std=" + std, "-fsyntax-only", NOLIMIT[compiler], "-DNUNAVUT_ASSERT(x)=assert(x)", "-I", str(mix),
                 "-I", str(self.cetl), str(tu)]
 
     def build(self, lang, a, dir_a, dir_b, compiler="gcc"):
@@ -292,7 +293,7 @@ class Builder:
         obs = self.parse(lang, mix, hs, p.returncode, p.stderr)
         obs["defs"] = self.scrape_defs(lang, dir_b)
         obs["asrt"] = self.scrape_asserts(lang, dir_a / hs[0])
-        obs["cmd"] = " ".join(cmd[:3])
+        obs["cmd"] = " ".join(cmd[:4])
         shutil.rmtree(mix, ignore_errors=True)
         return obs
 
@@ -315,7 +316,11 @@ class Builder:
             if m.group("kind") == "fatal error":
                 fatal = True
             if first_error is None:
-                first_error = role + ":" + re.sub(r"\s+", " ", re.sub(r"\d+", "N", m.group("msg").replace("‘", "'").replace("’", "'")))[:70].strip()
+                try:
+                    where = f.read_text(errors="replace").splitlines()[int(m.group("line")) - 1]
+                except (OSError, IndexError):
+                    where = m.group("msg").replace("‘", "'").replace("’", "'")
+                first_error = role + ":" + re.sub(r"\s+", " ", re.sub(r"\d+", "N", where)).strip()[:70]
             if not _RE_SA.search(m.group("msg")):
                 continue
             # the statement that failed, read from the generated file (robust against diagnostic formats)
@@ -726,7 +731,8 @@ def run(ctx):
     if not ctx.quick:
         tlc.check_model(ctx, "OptionGuard", "OptionGuard_commons", constants="cpp bases = 14 families x all 48 vectors of the family-independent options",
                         timeout=3000)
-        tlc.check_model(ctx, "OptionGuard", "OptionGuard_mut2", constants="all pairs within two single-side changes of every base", timeout=3000)
+        tlc.check_model(ctx, "OptionGuard", "OptionGuard_mut2", constants="all pairs within two single-side changes of every c vector and of 7 cpp representatives",
+                        timeout=3000)
     neg = tlc.run_tlc(tlc.SPECS / "OptionGuard.tla", tlc.SPECS / "OptionGuard_neg.cfg", ctx.scratch, timeout=1500)
     if neg.violated != "Refines":
         raise MachineryFailure("negative control: a 1-bit hash was not refuted by TLC (%s %s)" % (neg.error, neg.violated))
@@ -762,7 +768,9 @@ def run(ctx):
     n_generr = n_invalid_expected = 0
     perturbed_checked = False
     for compiler in compilers:
-        res = camp.run_pairs([(c["lang"], c["a"], c["b"], c) for c in cases], "model", compiler)
+        # the second compiler sees every second case (its job is to show that the verdict is not a gcc artefact)
+        sel = cases if compiler == "gcc" else cases[::2]
+        res = camp.run_pairs([(c["lang"], c["a"], c["b"], c) for c in sel], "model", compiler)
         for (lang, a, b, case), obs, why in res:
             if obs is None:
                 n_generr += 1
@@ -794,7 +802,7 @@ def run(ctx):
 
     phase(ctx, "enumerated pairs built")
     # 3. code -> spec: seeded random pairs (incl. undocumented / unicode / near-identical values) and the command-line path
-    rp = random_pairs(ctx, model, ctx.pick(100, 1500))
+    rp = random_pairs(ctx, model, ctx.pick(100, 1000))
     res = camp.run_pairs(rp, "random")
     nskip = sum(1 for _, o, _ in res if o is None)
     ncli = cli_cases(ctx, model, builder, camp)
